@@ -78,3 +78,75 @@ def _cvc5(solver):
     stats["cvc5_calls"] += 1
     stats["cvc5_time"] += time.time() - t0
     return v if v in ("sat", "unsat") else "unknown"
+
+
+import pickle
+import select
+import signal
+
+HARD_TIMEOUT_S = int(os.environ.get("VERIF_VC_HARD_TIMEOUT_S", "60"))
+
+
+def check_forked(constraints, concretize=None, hard_timeout=None):
+    """Run check() in a forked child so that a solver call that ignores its own
+    timeout can be killed.  -> (verdict, counterexample dict | None, backend)"""
+    hard_timeout = hard_timeout or HARD_TIMEOUT_S
+    r, w = os.pipe()
+    t0 = time.time()
+    pid = os.fork()
+    if pid == 0:
+        try:
+            os.close(r)
+            verdict, model, backend = check(constraints, want_model=True)
+            cex = None
+            if verdict == 'sat' and model is not None and concretize is not None:
+                cex = concretize(model)
+            data = pickle.dumps((verdict, cex, backend, dict(stats)))
+            with os.fdopen(w, 'wb') as f:
+                f.write(data)
+        except BaseException:
+            pass
+        finally:
+            os._exit(0)
+    os.close(w)
+    buf = b''
+    deadline = t0 + hard_timeout
+    try:
+        while True:
+            left = deadline - time.time()
+            if left <= 0:
+                break
+            rd, _, _ = select.select([r], [], [], left)
+            if not rd:
+                break
+            chunk = os.read(r, 1 << 16)
+            if not chunk:
+                break
+            buf += chunk
+    finally:
+        os.close(r)
+    try:
+        done, _ = os.waitpid(pid, os.WNOHANG)
+        if done == 0:
+            os.kill(pid, signal.SIGKILL)
+            os.waitpid(pid, 0)
+    except OSError:
+        pass
+    dt = time.time() - t0
+    stats["z3_calls"] += 1
+    stats["z3_time"] += dt
+    stats["z3_max"] = max(stats["z3_max"], dt)
+    if not buf:
+        stats["unknown"] += 1
+        return "unknown", None, "z3-killed"
+    try:
+        verdict, cex, backend, child_stats = pickle.loads(buf)
+    except Exception:
+        stats["unknown"] += 1
+        return "unknown", None, "z3"
+    if verdict in ("sat", "unsat"):
+        stats["by_backend"]["cvc5" if backend == "cvc5" else "z3"] += 1
+    else:
+        stats["unknown"] += 1
+    stats["cvc5_calls"] += child_stats.get("cvc5_calls", 0) - stats.get("_cvc5_seen", 0) if False else 0
+    return verdict, cex, backend
